@@ -27,7 +27,8 @@ fn text(rng: &mut Rng, out: &mut String) {
             4 => out.push('\r'),
             5 => out.push_str("\r\n"),
             6 => {
-                for i in 0..rng.range(14, 20) {
+                let n = if rng.chance(1, 6) { *rng.pick(&[63usize, 64, 65, 130]) } else { rng.range(14, 20) };
+                for i in 0..n {
                     out.push((b'a' + (i % 26) as u8) as char);
                 }
             },
